@@ -30,6 +30,9 @@ func restartMonitor(keys *Keys, h History, ref *Trace, r *rand.Rand) []Failure {
 				}
 			case strings.Join(bt.TxOut, "|") != strings.Join(o.TxOut, "|"):
 				fs = append(fs, Failure{"C12", "C12/" + name + "/tx-results-differ", bt.Height, fmt.Sprint(bt.TxOut, o.TxOut)})
+			case strings.Join(bt.ResDet, "|") != strings.Join(o.ResDet, "|"):
+				// code, data, gas wanted, gas used: what CometBFT hashes into the next header's LastResultsHash
+				fs = append(fs, Failure{"C12", "C12/" + name + "/hashed-tx-result-fields-differ", bt.Height, fmt.Sprint(bt.ResDet, o.ResDet)})
 			case fmt.Sprint(bt.Updates) != fmt.Sprint(o.Updates):
 				fs = append(fs, Failure{"C12", "C12/" + name + "/validator-updates-differ", bt.Height, fmt.Sprint(bt.Updates, o.Updates)})
 			default:
